@@ -539,6 +539,43 @@ static bool doOpC1617(const std::vector<std::string>& a, std::string& out) {
   return false;
 }
 // END C16 C17
+// BEGIN C1617
+// More host-surface ops of the C16 / C17 checks (everything a host can do to a context's flags or to the plugin manager):
+//   settrace K 0|1       bloc_ctx_enable_trace                                                        -> ok
+//   istrace K            bloc_ctx_trace                                                               -> tc=0|1
+//   deinit               bloc_deinit_plugins (PluginManager::destroy: modules unloaded, grants forgotten) -> ok
+//   retrun K <hex>       the embedding loop of a host that ignores returned values: bloc_parse_executable,
+//                        bloc_execute, bloc_reset_stop, bloc_free_executable; the returned value is NOT dropped
+//                        (it stays in the context until the next return, the purge or the release)
+//                                                                       -> ok | ret | rerr <no> | perr <no>
+//   dropret K            bloc_drop_returned + bloc_free_value                                         -> ok | none
+static bool doOpC1617b(const std::vector<std::string>& a, std::string& out) {
+  const std::string& cmd = a[0];
+  auto K = [&](size_t i) -> CtxSlot& { return g_ctx[atoi(a.at(i).c_str()) & 15]; };
+  if (cmd == "settrace") { bloc_ctx_enable_trace(reinterpret_cast<bloc_context*>(K(1).ctx), a.at(2) == "1" ? bloc_true : bloc_false); out = "ok"; return true; }
+  if (cmd == "istrace") { out = std::string("tc=") + (bloc_ctx_trace(reinterpret_cast<bloc_context*>(K(1).ctx)) == bloc_true ? "1" : "0"); return true; }
+  if (cmd == "deinit") { bloc_deinit_plugins(); out = "ok"; return true; }
+  if (cmd == "retrun") {
+    bloc_context* c = reinterpret_cast<bloc_context*>(K(1).ctx);
+    std::string src = hexdec(a.at(2));
+    bloc_parsing_position pos = {0, 0};
+    bloc_executable* x = bloc_parse_executable(c, src.c_str(), &pos);
+    if (!x) { out = "perr " + std::to_string(bloc_errno()); return true; }
+    bool ok = bloc_execute(x) == bloc_true;
+    if (!ok) out = "rerr " + std::to_string(bloc_errno());
+    else out = K(1).ctx->returnCondition() ? "ret" : "ok";
+    bloc_reset_stop(c);
+    bloc_free_executable(x);
+    return true;
+  }
+  if (cmd == "dropret") {
+    bloc_value* v = bloc_drop_returned(reinterpret_cast<bloc_context*>(K(1).ctx));
+    if (v) { bloc_free_value(v); out = "ok"; } else out = "none";
+    return true;
+  }
+  return false;
+}
+// END C1617
 // BEGIN C11
 // Ops of the C11 check (a rejected text does not disturb what was valid before):
 //   fnid K            function table with the identity of every functor -> fnid=<hexname>~<arity>~<body>~<ptr>;...
@@ -832,6 +869,9 @@ static std::string doOp(const std::string& op) {
   // BEGIN C16 C17
   { std::string r; if (doOpC1617(a, r)) return r; }
   // END C16 C17
+  // BEGIN C1617
+  { std::string r; if (doOpC1617b(a, r)) return r; }
+  // END C1617
 // BEGIN C11
   if (cmd == "fnid") return c11Fnid(*K(1).ctx);
   if (cmd == "ptrace") {
